@@ -51,10 +51,15 @@ func docxStyleFor(p *lpara, need map[string]bool) (style string, outline int) {
 		case "cyclic":
 			style = styleID("CycA", L)
 			need[styleID("CycB", L)] = true
+		case "family":
+			style = p.Fam // its ancestors are added by family.closeNeed
 		case "outline":
 			outline = p.Level - 1
 		}
 	case "p":
+		if p.Fam != "" {
+			style = p.Fam // a (cell) paragraph written in a style of the family
+		}
 		switch p.Via {
 		case "quote":
 			style = "Quote"
@@ -176,6 +181,28 @@ func docxStyleDef(id string, noOutline bool) *Node {
 	}
 	if len(rpr.Kids) > 0 {
 		st.Add(rpr)
+	}
+	return st
+}
+
+// docxFamilyDef writes a derived style of the document's style family: basedOn its
+// parent, and - when it overrides - an outline level of its own (0-based, ECMA-376
+// 17.3.1.20; paragraph properties not given are inherited along basedOn, 17.7.4.3).
+func docxFamilyDef(s *fstyle) *Node {
+	st := E("w:style").A("w:type", "paragraph").A("w:customStyle", "1").A("w:styleId", s.ID)
+	st.Add(wval("w:name", "Fam "+s.ID[3:]), wval("w:basedOn", s.Parent))
+	ppr := E("w:pPr")
+	if s.Depth%2 == 0 {
+		ppr.Add(E("w:keepNext"))
+	}
+	if s.Own > 0 {
+		ppr.Add(wval("w:outlineLvl", strconv.Itoa(s.Own-1)))
+	}
+	if len(ppr.Kids) > 0 {
+		st.Add(ppr)
+	}
+	if s.Depth == 1 {
+		st.Add(E("w:rPr", wval("w:color", "1F3864")))
 	}
 	return st
 }
@@ -373,6 +400,7 @@ func writeDocx(r *hx.Rng, d *ldoc) docxPkg {
 	var members []writers.Member
 	if d.Styles {
 		st := E("w:styles", E("w:docDefaults", E("w:rPrDefault", E("w:rPr", E("w:rFonts").A("w:ascii", "Calibri"), wval("w:sz", "22")))))
+		d.Fam.closeNeed(need)
 		ids := make([]string, 0, len(need))
 		for id := range need {
 			ids = append(ids, id)
@@ -382,6 +410,10 @@ func writeDocx(r *hx.Rng, d *ldoc) docxPkg {
 			hx.Shuffle(r, ids) // definition order is free; basedOn may point forward
 		}
 		for _, id := range ids {
+			if fs := d.Fam.get(id); fs != nil && fs.Via == "family" {
+				st.Add(docxFamilyDef(fs))
+				continue
+			}
 			st.Add(docxStyleDef(id, d.NoOutline))
 		}
 		pkg.Styles = st
